@@ -96,6 +96,7 @@ claim('C11',
       'NUL-terminated option text of any length: every read stays at or before the terminator (also for unterminated '
       'quotes), cursors only move forward, string values are built from in-range (pointer,length) pairs, the name buffer '
       'is large enough. ParseOptionString is verified modularly against the contracts of the scanners and value parsers, and '
+      '(SkipToMatchingQuote: the scan ends behind the opening quote character itself or at the terminator) and '
       'carries three clauses of the statement as assertions at every real call of the value parser: a query \'name=?\' (followed '
       'by the end of the text or any white space) never reaches it, a flag that is given a value never reaches it (an error is '
       'reported instead), an unknown name never reaches it. OptionHelper<int>::Parse hands on exactly the number strtol read or '
@@ -128,7 +129,7 @@ claim('C05',
       'agree); SuffixValueCounter::Visit counts. (4) Reader accepts what the writer writes: SOLReader2::sufheadcheck accepts every '
       'suffix header the writer can produce, the option-count / size-check / objno lines, and every table line the writer writes '
       '(ghost fgets stream over the written bytes), and every primal / dual value line (decstring accepts the number the writer wrote even when '
-      'strtod reports ERANGE for a subnormal result). '
+      'strtod reports ERANGE for a subnormal result), and every suffix value line (every int value, INT_MIN included). '
       'Two genuine writer/reader disagreements are recorded as known findings (fewer than 3 options; vbtol form of the options).',
       'Trusted: CBMC, extractor, the ghost output model (fputc/fwrite/print always succeed; "{}" of an integer prints its '
       'decimal digits, "{:.16}" a double with 16 significant digits). Not decided: number round trip itself (fmt formatting vs '
